@@ -30,6 +30,30 @@ theorem tsValidWord_iff (P : Params) (ts ne : BitVec 64)
   simp only [Nat.reducePow, Nat.reduceSub] at *
   omega
 
+/-- No assumption on the clock word at all: the check accepts exactly the words `ne + d` (wrapping `int64`
+addition) with `|d| ≤ MaxEpochDiff`. -/
+theorem tsValidWord_iff_wrap (P : Params) (hM : P.maxEpochDiff < 2 ^ 63) (ts ne : BitVec 64) :
+    tsValidWord P ts ne = true ↔
+      ∃ d : Int, -(P.maxEpochDiff : Int) ≤ d ∧ d ≤ P.maxEpochDiff ∧ ts = ne + BitVec.ofInt 64 d := by
+  have hm : (BitVec.ofNat 64 P.maxEpochDiff).toInt = (P.maxEpochDiff : Int) := toInt_ofNat_small _ hM
+  have hv : tsValidWord P ts ne = true ↔
+      (-(P.maxEpochDiff : Int) ≤ (ts - ne).toInt ∧ (ts - ne).toInt ≤ P.maxEpochDiff) := by
+    simp only [tsValidWord, BitVec.slt_eq_decide, Bool.not_eq_true', Bool.or_eq_false_iff, decide_eq_false_iff_not,
+      BitVec.toInt_neg, hm, Int.bmod_def]
+    simp only [Nat.reducePow] at *
+    omega
+  rw [hv]
+  constructor
+  · intro ⟨h1, h2⟩
+    refine ⟨(ts - ne).toInt, h1, h2, ?_⟩
+    rw [BitVec.ofInt_toInt, BitVec.add_comm, BitVec.sub_add_cancel]
+  · rintro ⟨d, h1, h2, rfl⟩
+    have : (ne + BitVec.ofInt 64 d - ne) = BitVec.ofInt 64 d := by
+      rw [BitVec.add_comm, BitVec.add_sub_cancel]
+    rw [this, BitVec.toInt_ofInt, Int.bmod_def]
+    simp only [Nat.reducePow] at *
+    omega
+
 theorem nowEpoch_toInt (now : Nat) (h : unixSec now < 2 ^ 63) : (nowEpoch now).toInt = (unixSec now : Int) :=
   toInt_ofNat_small _ h
 
